@@ -23,7 +23,9 @@ EXC_LATTICE = {
     'ArithmeticError': 'Exception', 'struct.error': 'Exception', 'NonTerminal': 'Exception',
     'UnicodeEncodeError': 'ValueError', 'UnicodeDecodeError': 'ValueError', 'RuntimeError': 'Exception',
     'OverflowError': 'ArithmeticError', 'NotImplementedError': 'RuntimeError',
+    'OSError': 'Exception', 'BlockingIOError': 'OSError', 'ConnectionError': 'OSError', 'TimeoutError': 'OSError',
 }
+EXC_ALIAS = {'socket.error': 'OSError', 'IOError': 'OSError', 'EnvironmentError': 'OSError', 'socket.timeout': 'TimeoutError'}
 
 
 def exc_isa(cls, parent):
@@ -574,6 +576,7 @@ class StmtMixin(object):
         names = []
         for t in ts:
             nm = t.id if isinstance(t, ast.Name) else ast.unparse(t)
+            nm = EXC_ALIAS.get(nm, nm)
             if nm not in EXC_LATTICE:
                 raise Unsupported('handler for unknown exception class %s' % nm)
             names.append(nm)
